@@ -66,6 +66,45 @@ theorem import_export (sha : Bytes → Bytes) (s : Stream) (f : BlobFields) (h :
         stream.csFlagFinishedSendAAD, stream.csFlagFinishedRecvAAD, stream.csFlagSendDigestWritten,
         stream.csFlagRecvDigestWritten, c1, c3, c4, c5, c6, c7, c8, c9, hk]
 
+/-- **import_identity**: the session's identity survives the hand-off. Whatever connection the
+    stream is rebuilt around (`connAddr`: the remote address `NewStream` records for it — typically a
+    local unix socket, not the peer), the imported stream reports the exporter's authentication
+    status, and the exporter's peer address whenever the exporter had one; only a session that never
+    knew its peer takes the new connection's address. Everything else is as in `import_export`. -/
+theorem import_identity (sha : Bytes → Bytes) (s : Stream) (f : BlobFields) (connAddr : Bytes)
+    (h : s.exportFields sha = .ok f) :
+    let t := importFieldsAround connAddr f
+    t.authenticated = s.authenticated ∧
+    (s.peerAddr ≠ [] → t.peerAddr = s.peerAddr) ∧ (s.peerAddr = [] → t.peerAddr = connAddr) ∧
+    t.key = s.key ∧ t.encrypted = s.encrypted ∧ t.encIV = s.encIV ∧ t.decIV = s.decIV ∧
+    t.encCtr = s.encCtr ∧ t.decCtr = s.decCtr := by
+  obtain ⟨h1, h2, h3, h4, h5, h6, h7, _, _, _, _, _, _, _, h15⟩ := import_export sha s f h
+  have hp : f.peer = s.peerAddr := (export_contents sha s f h).2.2.2.2.2
+  refine ⟨h3, ?_, ?_, h1, h2, h4, h5, h6, h7⟩
+  · intro hne
+    have : f.peer.length > 0 := by
+      rw [hp]; cases hs : s.peerAddr with
+      | nil => exact absurd hs hne
+      | cons a t => simp
+    show (if f.peer.length > 0 then f.peer else connAddr) = s.peerAddr
+    rw [if_pos this, hp]
+  · intro he
+    show (if f.peer.length > 0 then f.peer else connAddr) = connAddr
+    have : ¬ f.peer.length > 0 := by rw [hp, he]; simp
+    rw [if_neg this]
+
+/-- with the connection in view the imported stream IS the one `import_export`, `handoff_sim`,
+    `handoff_transparent` and `handoff_chain` speak about, whenever the exporter knew its peer -/
+theorem import_around_eq (sha : Bytes → Bytes) (s : Stream) (f : BlobFields) (connAddr : Bytes)
+    (h : s.exportFields sha = .ok f) (hne : s.peerAddr ≠ []) :
+    importFieldsAround connAddr f = importFields f := by
+  have hp : f.peer = s.peerAddr := (export_contents sha s f h).2.2.2.2.2
+  have : f.peer.length > 0 := by
+    rw [hp]; cases hs : s.peerAddr with
+    | nil => exact absurd hs hne
+    | cons a t => simp
+  simp [importFieldsAround, this, importFields]
+
 /-- **import_rejects** (mis-tagged / wrong-version / short): a blob shorter than the fixed prefix, or
     whose magic or version differ, is rejected. (Every strict truncation of a real blob is covered
     by the handoff engine exhaustively; the trailer case is proved in `truncated_trailer_rejected`.) -/
